@@ -441,8 +441,28 @@ def gen_same_type_everywhere(tier):
         k += 1
 
 
+def gen_return_flags(tier):
+    """Return-value flags on every callable kind other than plain functions (those are in gen_functions)."""
+    k = 0
+    sigs, vfs, meths = [], [], []
+    for transfer, nullable, skip in itertools.product(('none', 'container', 'full'), (0, 1), (0, 1)):
+        ty = lambda: (Lst('GLib.List', B('utf8')) if transfer == 'container' else B('utf8'))
+        yield ('cb-ret-flags-%d' % k, CallbackT('CbR%d' % k, Ret(ty(), transfer, bool(nullable), bool(skip)),
+                                                [Param('a', B('gint'))], ctype='CCbR%d' % k))
+        sigs.append(Signal('sr%d' % k, Ret(ty(), transfer, bool(nullable), bool(skip)), [Param('a', B('gint'))]))
+        vfs.append(VFunc('vr%d' % k, Ret(ty(), transfer, bool(nullable), bool(skip)), [Param('a', B('gint'))],
+                         instance=(I('CRF', 'CCRF'), 'none')))
+        meths.append(Method('mr%d' % k, Ret(ty(), transfer, bool(nullable), bool(skip)), [Param('a', B('gint'))],
+                            instance=(I('CRF', 'CCRF'), 'full' if k % 2 else 'none'), symbol='c_crf_mr%d' % k))
+        k += 1
+    yield ('class-ret-flags', ClassN('CRF', parent='Obj', signals=sigs, vfuncs=vfs, methods=meths,
+                                     fields=[FieldN('fcb%d' % i, callback=CallbackT('fcb%d' % i, Ret(B('utf8'), t, bool(n), bool(sk)),
+                                                                                    [Param('a', B('gint'))]))
+                                             for i, (t, n, sk) in enumerate(itertools.product(('none', 'full'), (0, 1), (0, 1)))]))
+
+
 ALL_GENS = [gen_callbacks, gen_enums, gen_records, gen_classes, gen_functions, gen_type_positions, gen_constants,
-            gen_attr_everywhere, gen_same_type_everywhere]
+            gen_attr_everywhere, gen_same_type_everywhere, gen_return_flags]
 
 # entries every batch needs because other entries refer to them by name
 SUPPORT = ('cb-basic', 'enum-En', 'rec-Rec', 'class-Obj', 'class-ObjClass', 'iface-IfA', 'iface-IfB', 'iface-IfC', 'alias')
